@@ -219,3 +219,10 @@ def x_splice_rows(rows: list, y: int, v: int):
         new = [*rows[:y], *[[v, *rows[y]]], *rows[y + 1 :]]
         return (len(new), [len(r) for r in new], new[y][0], new[y][1:], new[y - 1] if y > 0 else None, new[y + 1] if y + 1 < len(new) else None, new)
     return None
+def x_generator_same_list(a: int, n: int, w: int):
+    # the SAME list object yielded once per round (SolidCanvas.content / BlankCanvas.content: one `line` for every row);
+    # pyvc yields it by value and keeps it readable (seqs.YieldedRef)
+    line = [(a, [a] * w)]
+    for _ in range(n):
+        yield line
+    yield line + [(w, [])]
